@@ -653,3 +653,75 @@ pub fn pool_file(rng: &mut Rng) -> String {
     rng.shuffle(&mut out);
     out.join("\n") + "\n"
 }
+
+// ---------------------------------------------------------------------------
+// A dictionary harvested from the sources under test (like a fuzzer's dictionary): the names of the
+// emitter's format-string placeholders (`{node_enum_name}` ...) and its identifiers.  They occur nowhere
+// in the documentation or the emitted code, only in kiki's own source text, and are exactly what a
+// textual-substitution slip would trip over.
+
+pub struct RepoDictionary {
+    /// `{name}` placeholders found in string literals / templates.
+    pub placeholders: Vec<String>,
+    /// CamelCase identifiers (types, variants) of the sources.
+    pub camel: Vec<String>,
+    pub files_read: usize,
+}
+
+pub fn repo_dictionary() -> &'static RepoDictionary {
+    static D: std::sync::OnceLock<RepoDictionary> = std::sync::OnceLock::new();
+    D.get_or_init(|| {
+        let root = std::env::var("KV_REPO").unwrap_or_else(|_| "/repo".to_string());
+        let mut placeholders = std::collections::BTreeSet::new();
+        let mut camel = std::collections::BTreeSet::new();
+        let mut files_read = 0;
+        let mut stack = vec![std::path::PathBuf::from(root).join("kiki").join("src")];
+        while let Some(dir) = stack.pop() {
+            let Ok(rd) = std::fs::read_dir(&dir) else { continue };
+            for e in rd.flatten() {
+                let p = e.path();
+                if p.is_dir() {
+                    if p.file_name().map(|n| n != "snapshots" && n != "examples").unwrap_or(true) {
+                        stack.push(p);
+                    }
+                    continue;
+                }
+                let Ok(text) = std::fs::read_to_string(&p) else { continue };
+                if text.len() > 2_000_000 {
+                    continue;
+                }
+                files_read += 1;
+                let b = text.as_bytes();
+                let mut i = 0;
+                while i < b.len() {
+                    if b[i] == b'{' && (i == 0 || b[i - 1] != b'{') {
+                        let mut j = i + 1;
+                        while j < b.len() && (b[j].is_ascii_lowercase() || b[j].is_ascii_digit() || b[j] == b'_') {
+                            j += 1;
+                        }
+                        if j > i + 3 && j < b.len() && b[j] == b'}' && (j + 1 >= b.len() || b[j + 1] != b'}') && b[i + 1].is_ascii_lowercase() {
+                            placeholders.insert(text[i..=j].to_string());
+                        }
+                        i = j;
+                    } else if b[i].is_ascii_uppercase() && (i == 0 || !(b[i - 1].is_ascii_alphanumeric() || b[i - 1] == b'_')) {
+                        let mut j = i + 1;
+                        while j < b.len() && (b[j].is_ascii_alphanumeric() || b[j] == b'_') {
+                            j += 1;
+                        }
+                        if j - i >= 3 && j - i <= 28 && text[i..j].chars().any(|c| c.is_ascii_lowercase()) {
+                            camel.insert(text[i..j].to_string());
+                        }
+                        i = j;
+                    } else {
+                        i += 1;
+                    }
+                }
+            }
+        }
+        RepoDictionary {
+            placeholders: placeholders.into_iter().collect(),
+            camel: camel.into_iter().collect(),
+            files_read,
+        }
+    })
+}
